@@ -133,7 +133,10 @@ def fee_withdraw(R, env, prog, sites, RULE):
     R.worlds += 1
     succ = [e for e in exits(w) if e["kind"] != "err"]
     unwraps = [w.body.loc(bi) for bi, t, args in call_sites(w, lambda nm: nm in ("std::option::Option::unwrap", "std::option::Option::expect")) if args and tp(args[0])]
-    R.ob(RULE, "FeeWithdraw:no-treasury-no-success", n >= 1 and (not succ or bool(unwraps)) and not (succ and not unwraps), "without a treasury FeeWithdraw has a success exit", fn=hk)
+    # (not vacuous also when the test is a value inside an accessor, `cfg.treasury()?` = `opt.as_ref().ok_or(..)`: the handler
+    # can succeed in general and cannot in the world without a treasury)
+    tested = n >= 1 or (not succ and any(e["kind"] != "err" for e in exits(h)))
+    R.ob(RULE, "FeeWithdraw:no-treasury-no-success", tested and (not succ or bool(unwraps)) and not (succ and not unwraps), "without a treasury FeeWithdraw has a success exit", fn=hk)
     R.ob(RULE, "FeeWithdraw:no-treasury-error-not-panic", not unwraps, "without a treasury FeeWithdraw reaches an unwrap of treasury_address at %s" % unwraps, fn=hk)
 
 
